@@ -77,8 +77,11 @@ namespace nmtools::index
             at(result,i) = idx;
         }
 
-        at(result,axis1) = at(indices,meta::ct_v<-1>);
-        at(result,axis2) = at(indices,meta::ct_v<-1>) + offset;
+        // a[i, i+offset] for a non-negative offset, a[i-offset, i] for a negative one
+        auto diag_i   = at(indices,meta::ct_v<-1>);
+        auto n_offset = static_cast<nm_index_t>(offset);
+        at(result,axis1) = (n_offset < 0) ? diag_i - n_offset : diag_i;
+        at(result,axis2) = (n_offset > 0) ? diag_i + n_offset : diag_i;
 
         return result;
     }
